@@ -194,8 +194,13 @@ template <class T> struct World {
       string who = "after " + after + ", collection #" + to_string(k);
       checkMR<T>(*o[k].mr, o[k].mm, who + " (MultiRange)");
       checkRS<T>(*o[k].rs, o[k].sm, who + " (RangeSet)");
-      for (size_t i = 0; i < o[k].mr->size(); ++i) { CHECK(addr.insert(&o[k].mr->getRange(i)).second, who << ": a stored Range object is shared with another collection (shallow copy)"); ++stored; }
-      for (size_t i = 0; i < o[k].rs->size(); ++i) { CHECK(addr.insert(&o[k].rs->getRange(i)).second, who << ": a stored Range object is shared with another collection (shallow copy)"); ++stored; }
+      bool shared = false;
+      for (size_t i = 0; i < o[k].mr->size(); ++i) { shared |= !addr.insert(&o[k].mr->getRange(i)).second; ++stored; }
+      for (size_t i = 0; i < o[k].rs->size(); ++i) { shared |= !addr.insert(&o[k].rs->getRange(i)).second; ++stored; }
+      if (shared) {  // destroying the collections would free the shared object twice: leak them and report
+        for (auto& x : o) { (void)x.mr.release(); (void)x.rs.release(); }
+        CHECK(false, who << ": a stored Range object is shared with another collection (shallow copy)");
+      }
     }
     CHECK(CRange<T>::live == static_cast<long>(stored), "after " << after << ": " << CRange<T>::live << " Range objects are alive but the live collections store " << stored << " (leak)");
   }
